@@ -99,9 +99,17 @@ WMsg == /\ E.ev = "w_msg"
                         ELSE IF \E i \in 1..Len(toReport) : toReport[i].n = o.n THEN Fail("HandledBeforeReadCallback")
                         ELSE /\ toWriter' = Tail(toWriter) /\ cur' = o /\ pend' = Decide(o) /\ Ok
                              /\ UNCHANGED <<filt, rr, x, nmsg, hdr, toReport, cbQ, wireQ, pser, issued, written, outstanding, matched, expectRet, returned, activeCb, stopping>>
+UnjFrame(id, ps) == << -1, id, ps >>
+SameFrame(f, data) == IF Len(f) = 3 /\ f[1] = -1
+                      THEN LET d == Decode(data) IN d.ok /\ d.id = f[2] /\ d.serial = f[3]
+                      ELSE Mat(f) = Mat(data)
 ReplyBegin == /\ E.ev = "reply_begin"
               /\ IF ~(pend = "reply" /\ cur.serial = E.serial) THEN Fail("ReplyUnexpected")
-                 ELSE LET fr == ReplyFrame(cur, pser) has == ReplyFor(cur).has IN   \* ~has: body refused (0x0102/2019 too short): logged, nothing written
+                 \* ~has: body refused (0x0102/2019 too short): logged, nothing written.  A body the handler cannot parse (0x0801 shorter
+                 \* than its fixed part, 0x1212 whose name length does not fit) is still answered - with the reply id of its message and
+                 \* the next platform serial; what the reply body says is not specified (UnjFrame)
+                 ELSE LET fr == IF Judged(cur) THEN ReplyFrame(cur, pser) ELSE UnjFrame(IF cur.id = 2049 THEN 34816 ELSE 37394, pser)
+                          has == IF Judged(cur) THEN ReplyFor(cur).has ELSE TRUE IN
                       /\ cbQ' = (IF has THEN Append(cbQ, fr) ELSE cbQ)
                       /\ wireQ' = (IF has THEN Append(wireQ, fr) ELSE wireQ)
                       /\ pser' = (IF has THEN (pser + 1) % 65536 ELSE pser)
@@ -113,12 +121,12 @@ WriteCb == /\ E.ev = "writecb"
                     ELSE /\ activeCb' = activeCb \ {E.pseq} /\ Ok
                          /\ UNCHANGED <<filt, rr, x, nmsg, hdr, toReport, toWriter, cur, pend, cbQ, wireQ, pser, issued, written, outstanding, matched, expectRet, returned, stopping>>)
               ELSE (IF cbQ = <<>> THEN Fail("WriteCallbackUnexpected")
-                    ELSE IF Mat(Head(cbQ)) # Mat(E.data) THEN Fail("WriteCallbackBytes")
+                    ELSE IF ~SameFrame(Head(cbQ), E.data) THEN Fail("WriteCallbackBytes")
                     ELSE /\ cbQ' = Tail(cbQ) /\ Ok
                          /\ UNCHANGED <<filt, rr, x, nmsg, hdr, toReport, toWriter, cur, pend, wireQ, pser, issued, written, outstanding, matched, expectRet, returned, activeCb, stopping>>)
 Recv == /\ E.ev = "recv"
         /\ IF wireQ = <<>> THEN Fail("FrameUnexpected")
-           ELSE IF Mat(Head(wireQ)) # Mat(E.bytes) THEN Fail("FrameBytes")
+           ELSE IF ~SameFrame(Head(wireQ), E.bytes) THEN Fail("FrameBytes")
            ELSE /\ wireQ' = Tail(wireQ) /\ Ok
                 /\ UNCHANGED <<filt, rr, x, nmsg, hdr, toReport, toWriter, cur, pend, cbQ, pser, issued, written, outstanding, matched, expectRet, returned, activeCb, stopping>>
 \* logical time: the harness slept for E.ms milliseconds (only logged for deliberate stalls)
